@@ -309,8 +309,8 @@ theorem pureTop_amb (k : K) (hf : (plan k).fail = false) (r : Rank F E) (rs : Li
 
 theorem pureTop_ok (k : K) (hf : (plan k).fail = false) (r : Rank F E) (rs : List (Rank F E))
     (hr : (plan k).ranks = r :: rs) (f : F) (hfn : r.func = some f) : pureTop plan k = .ok f := by
-  have hw : ws plan k = W.c (none, k) f :: (if r.codes.isEmpty then [] else writes k rs r.codes) := by
-    unfold ws
+  have hw : writes k (plan k).ranks [] =
+      W.c (none, k) f :: (if r.codes.isEmpty then [] else writes k rs r.codes) := by
     rw [hr, writes_cons, hfn]
     rfl
   have hrest : ∀ w ∈ (if r.codes.isEmpty then [] else writes k rs r.codes : List (W K F E)),
@@ -325,13 +325,25 @@ theorem pureTop_ok (k : K) (hf : (plan k).fail = false) (r : Rank F E) (rs : Lis
       have := (writes_keys k rs r.codes w hw).2.1 hn
       rw [this] at hc
       simp at hc
-  have hE : lastE (none, k) (if r.codes.isEmpty then [] else writes k rs r.codes : List (W K F E)) = none :=
-    lastE_none_of_not_mem _ _ (fun e he => hrest _ he rfl)
-  have hC : lastC (none, k) (if r.codes.isEmpty then [] else writes k rs r.codes : List (W K F E)) = none :=
-    lastC_none_of_not_mem _ _ (fun e he => hrest _ he rfl)
+  have hE : lastE (none, k) (ws plan k) = none := by
+    apply lastE_none_of_not_mem
+    intro e he
+    have he' := (mem_ws plan k _).1 he
+    rw [hw] at he'
+    rcases List.mem_cons.1 he' with h1 | h2
+    · cases h1
+    · exact hrest _ h2 rfl
+  have hC : lastC (none, k) (ws plan k) = some f := by
+    have hmem : W.c (none, k) f ∈ ws plan k := (mem_ws plan k _).2 (by rw [hw]; exact List.mem_cons_self ..)
+    obtain ⟨g, hg⟩ := lastC_some_of_mem (none, k) f _ hmem
+    have hg' := (mem_ws plan k _).1 (lastC_mem _ _ _ hg)
+    rw [hw] at hg'
+    rcases List.mem_cons.1 hg' with h1 | h2
+    · cases h1; exact hg
+    · exact absurd rfl (hrest _ h2)
   unfold pureTop
-  rw [hf, hr, hw]
-  simp only [Bool.false_eq_true, if_false, List.isEmpty_cons, lastE, lastC, hE, hC, if_true]
+  rw [hf, hr, hE, hC]
+  simp
 
 end
 
